@@ -947,10 +947,9 @@ func lexLiteral(l *lexer) stateFn {
 	l.pos += ast.Pos(i)
 
 	// Accept everything as itemText until we see the {/literal}
+	// (an empty literal block gives an empty text item, which the parser expects).
 	// Emit the other various tokens.
-	if i > 0 {
-		l.emit(itemText)
-	}
+	l.emit(itemText)
 	l.pos += ast.Pos(delimLen)
 	l.emit(itemLeftDelim)
 	l.pos += ast.Pos(len("/literal"))
